@@ -178,50 +178,77 @@ func runC07(p *Prog, r *Report, tier string) {
 				r.Check(v == 0 && fresh, "R-OWNER.retries", construct, p.instrPos(in), "0 at creation", "the retry counter of an existing record is reset: an uncorrelated flow is retried forever instead of being dropped after MaxRetries", true)
 				return
 			}
+			isCounter := func(v ssa.Value) bool {
+				_, f2, _, ok2 := loadedField(v)
+				return ok2 && f2 == "waitForReadyToSendRetries"
+			}
 			b, ok := st.Val.(*ssa.BinOp)
 			inc := ok && b.Op == token.ADD
 			if inc {
-				one, ok1 := constInt(b.Y)
-				_, f2, _, ok2 := loadedField(b.X)
-				inc = ok1 && one == 1 && ok2 && f2 == "waitForReadyToSendRetries"
+				oneY, okY := constInt(b.Y)
+				oneX, okX := constInt(b.X)
+				inc = (okY && oneY == 1 && isCounter(b.X)) || (okX && oneX == 1 && isCounter(b.Y))
 			}
 			// in the not-ready branch of the scan, once (not in an inner loop)
 			notReady := false
 			for _, gd := range guardsOf(in.Block()) {
-				if u, ok := gd.If.Cond.(*ssa.UnOp); ok && u.Op == token.MUL && isRTS(u.X) && gd.Succ == 1 {
+				c, falseSucc := gd.If.Cond, 1
+				for {
+					u, ok := c.(*ssa.UnOp)
+					if !ok || u.Op != token.NOT {
+						break
+					}
+					c, falseSucc = u.X, 1-falseSucc
+				}
+				if bo, ok := c.(*ssa.BinOp); ok && (bo.Op == token.EQL || bo.Op == token.NEQ) {
+					// ReadyToSend == false / != true / ...
+					for _, pr := range [][2]ssa.Value{{bo.X, bo.Y}, {bo.Y, bo.X}} {
+						if k, ok := pr[1].(*ssa.Const); ok && k.Value != nil && k.Value.Kind() == constant.Bool {
+							c = pr[0]
+							if constant.BoolVal(k.Value) != (bo.Op == token.EQL) {
+								falseSucc = 1 - falseSucc
+							}
+						}
+					}
+				}
+				if u, ok := c.(*ssa.UnOp); ok && u.Op == token.MUL && isRTS(u.X) && gd.Succ == falseSucc {
 					notReady = true
 				}
 			}
-			// followed by the MaxRetries comparison
+			// followed by the MaxRetries comparison (either operand order, either polarity)
 			cmp := false
 			if i := ifOf(in.Block()); i != nil {
-				if c, ok := i.Cond.(*ssa.BinOp); ok && c.Op == token.GTR {
-					if g, ok := c.Y.(*ssa.UnOp); ok {
-						if gl, ok := g.X.(*ssa.Global); ok && gl.Name() == "MaxRetries" {
-							_, f2, _, ok2 := loadedField(c.X)
-							cmp = ok2 && f2 == "waitForReadyToSendRetries"
-							// '>' edge deletes, other edge re-arms both deadlines
-							del, rearmA, rearmI := false, false, false
-							for _, x := range i.Block().Succs[0].Instrs {
-								if cc, ok := x.(*ssa.Call); ok && cc.Call.StaticCallee() != nil && cc.Call.StaticCallee().Name() == "deleteFlowKeyFromMapWithoutLock" {
-									del = true
-								}
-							}
-							for _, x := range i.Block().Succs[1].Instrs {
-								if s2, ok := x.(*ssa.Store); ok {
-									if _, f3, _, ok := fieldOf(s2.Addr); ok {
-										if f3 == "activeExpireTime" {
-											rearmA = true
-										}
-										if f3 == "inactiveExpireTime" {
-											rearmI = true
-										}
-									}
-								}
-							}
-							cmp = cmp && del && rearmA && rearmI
+				for _, cf := range cmpForms(i.Cond) {
+					if cf.Op != token.GTR || !isCounter(cf.X) {
+						continue
+					}
+					g, ok := cf.Y.(*ssa.UnOp)
+					if !ok {
+						continue
+					}
+					if gl, ok := g.X.(*ssa.Global); !ok || gl.Name() != "MaxRetries" {
+						continue
+					}
+					// '>' edge deletes, other edge re-arms both deadlines
+					del, rearmA, rearmI := false, false, false
+					for _, x := range i.Block().Succs[cf.Succ].Instrs {
+						if cc, ok := x.(*ssa.Call); ok && cc.Call.StaticCallee() != nil && cc.Call.StaticCallee().Name() == "deleteFlowKeyFromMapWithoutLock" {
+							del = true
 						}
 					}
+					for _, x := range i.Block().Succs[1-cf.Succ].Instrs {
+						if s2, ok := x.(*ssa.Store); ok {
+							if _, f3, _, ok := fieldOf(s2.Addr); ok {
+								if f3 == "activeExpireTime" {
+									rearmA = true
+								}
+								if f3 == "inactiveExpireTime" {
+									rearmI = true
+								}
+							}
+						}
+					}
+					cmp = del && rearmA && rearmI
 				}
 			}
 			r.Check(inc && notReady && cmp, "R-OWNER.retries", construct, p.instrPos(in), "+1 in the not-ready branch, then '> MaxRetries' => delete, else re-arm both deadlines and re-push",
@@ -369,75 +396,106 @@ func checkCorrelationTable(p *Prog, r *Report, f *ssa.Function) {
 		}
 		return ""
 	}
+	// abstract evaluation of the function's CFG for one point of the finite input domain: conditions may be written with
+	// either operand order, negated, combined with && / || (phis), as a switch, and the result may be a computed boolean
 	eval := func(e env) (bool, string) {
+		var prev *ssa.BasicBlock
 		b := f.Blocks[0]
-		for steps := 0; steps < 100; steps++ {
+		var num func(v ssa.Value) (int64, string)
+		num = func(v ssa.Value) (int64, string) {
+			if c, ok := constInt(v); ok {
+				return c, ""
+			}
+			if cv, ok := v.(*ssa.Convert); ok {
+				return num(cv.X)
+			}
+			if ph, ok := v.(*ssa.Phi); ok && prev != nil && ph.Block() == b {
+				return num(phiEdgeFrom(ph, prev))
+			}
+			switch classify(v) {
+			case "ft":
+				return e.ft, ""
+			case "eg":
+				if e.eg < 0 {
+					return 0, "the egress action is read although the element is absent"
+				}
+				return e.eg, ""
+			case "in":
+				if e.in < 0 {
+					return 0, "the ingress action is read although the element is absent"
+				}
+				return e.in, ""
+			}
+			return 0, "unrecognised operand " + v.String()
+		}
+		var truth func(v ssa.Value, d int) (bool, string)
+		truth = func(v ssa.Value, d int) (bool, string) {
+			if d > 8 {
+				return false, "condition too deep"
+			}
+			switch c := v.(type) {
+			case *ssa.Const:
+				if c.Value != nil && c.Value.Kind() == constant.Bool {
+					return constant.BoolVal(c.Value), ""
+				}
+			case *ssa.UnOp:
+				if c.Op == token.NOT {
+					t, why := truth(c.X, d+1)
+					return !t, why
+				}
+			case *ssa.Phi:
+				if prev != nil && c.Block() == b {
+					return truth(phiEdgeFrom(c, prev), d+1)
+				}
+			case *ssa.BinOp:
+				x, why := num(c.X)
+				if why != "" {
+					return false, why
+				}
+				y, why := num(c.Y)
+				if why != "" {
+					return false, why
+				}
+				switch c.Op {
+				case token.EQL:
+					return x == y, ""
+				case token.NEQ:
+					return x != y, ""
+				case token.LSS:
+					return x < y, ""
+				case token.LEQ:
+					return x <= y, ""
+				case token.GTR:
+					return x > y, ""
+				case token.GEQ:
+					return x >= y, ""
+				}
+				return false, "unrecognised operator"
+			}
+			switch classify(v) {
+			case "egExists":
+				return e.eg >= 0, ""
+			case "inExists":
+				return e.in >= 0, ""
+			}
+			return false, "unrecognised condition " + v.String()
+		}
+		for steps := 0; steps < 200; steps++ {
 			last := b.Instrs[len(b.Instrs)-1]
 			switch x := last.(type) {
 			case *ssa.Return:
-				c, ok := x.Results[0].(*ssa.Const)
-				if !ok {
-					return false, "non-constant return"
-				}
-				return constant.BoolVal(c.Value), ""
+				return truth(x.Results[0], 0)
 			case *ssa.Jump:
-				b = b.Succs[0]
+				prev, b = b, b.Succs[0]
 			case *ssa.If:
-				var val bool
-				switch c := x.Cond.(type) {
-				case *ssa.BinOp:
-					k := classify(c.X)
-					cst, ok := constInt(c.Y)
-					if k == "" || !ok {
-						return false, "unrecognised condition " + c.String()
-					}
-					var v int64
-					switch k {
-					case "ft":
-						v = e.ft
-					case "eg":
-						if e.eg < 0 {
-							return false, "the egress action is read although the element is absent"
-						}
-						v = e.eg
-					case "in":
-						if e.in < 0 {
-							return false, "the ingress action is read although the element is absent"
-						}
-						v = e.in
-					default:
-						return false, "unrecognised operand"
-					}
-					switch c.Op {
-					case token.EQL:
-						val = v == cst
-					case token.NEQ:
-						val = v != cst
-					case token.LSS:
-						val = v < cst
-					case token.LEQ:
-						val = v <= cst
-					case token.GTR:
-						val = v > cst
-					case token.GEQ:
-						val = v >= cst
-					default:
-						return false, "unrecognised operator"
-					}
-				default:
-					switch classify(x.Cond) {
-					case "egExists":
-						val = e.eg >= 0
-					case "inExists":
-						val = e.in >= 0
-					default:
-						return false, "unrecognised condition"
-					}
+				val, why := truth(x.Cond, 0)
+				if why != "" {
+					return false, why
 				}
 				if val {
-					b = b.Succs[0]
+					prev, b = b, b.Succs[0]
 				} else {
-					b = b.Succs[1]
+					prev, b = b, b.Succs[1]
 				}
 			default:
 				return false, "unexpected block end"
